@@ -168,6 +168,20 @@ def build_tool(name):
     return exe
 
 
+def build_dso(name):
+    """build a harness-side shared object (e.g. the merge function DSO for mtbl_merge)"""
+    src = os.path.join(HARNESS, name + '.c')
+    key = sha('dso', open(src, 'rb').read())
+    out = os.path.join(BUILD, 'bin', name + '-' + key + '.so')
+    if not os.path.exists(out):
+        os.makedirs(os.path.dirname(out), exist_ok=True)
+        r = subprocess.run(['gcc', '-O1', '-g', '-shared', '-fPIC', src, '-o', out + '.tmp%d' % os.getpid()], capture_output=True, text=True)
+        if r.returncode != 0:
+            raise BuildError('dso build failed: ' + r.stderr[-2000:])
+        os.replace(out + '.tmp%d' % os.getpid(), out)
+    return out
+
+
 # ------------------------------------------------------------------ running
 
 def load_known():
@@ -207,6 +221,8 @@ def run_job(pid, job, tier, deadline, env_extra=None):
         toolenv = {}
         for t in job.get('tools', []):
             toolenv['VERIF_TOOL_' + t.upper()] = build_tool(t)
+        for d in job.get('dsos', []):
+            toolenv['VERIF_DSO_' + d.upper()] = build_dso(d)
     except BuildError as e:
         res.errors.append('BUILD: ' + str(e))
         return res
@@ -417,6 +433,8 @@ def do_replay(path):
     env = dict(os.environ)
     for t in job.get('tools', []):
         env['VERIF_TOOL_' + t.upper()] = build_tool(t)
+    for d in job.get('dsos', []):
+        env['VERIF_DSO_' + d.upper()] = build_dso(d)
     scratch = tempfile.mkdtemp(prefix='verif-replay-', dir='/var/tmp')
     env['VERIF_SCRATCH_DIR'] = scratch
     env['VERIF_REPO'] = REPO
@@ -439,6 +457,8 @@ def do_setup():
         for job in chk['jobs']:
             specs.append((pid, job))
             tools.update(job.get('tools', []))
+            for d in job.get('dsos', []):
+                build_dso(d)
     ok = True
     for pid, job in specs:
         try:
